@@ -735,4 +735,60 @@ theorem sel_filter_outgoing (rs : List Reg) (e o : Bool) :
   intro r _
   cases r.early <;> cases r.outgoing <;> cases e <;> cases o <;> rfl
 
+/-! ## Vocabulary for the generated (live) tables -/
+
+/-- Number of the Python attribute a `Slot` stands for (`Cfg.get`): 0 = `packet_listeners`,
+1 = `early_packet_listeners`, 2 = `outgoing_packet_listeners`,
+3 = `early_outgoing_packet_listeners`. -/
+def slotIndex : Slot → Nat
+  | .ordinary => 0 | .early => 1 | .outgoing => 2 | .earlyOutgoing => 3
+
+/-- A call-log entry as the live probe prints it: the listener's id, `0` for the reaction. -/
+def evNum : Ev → Nat
+  | .early i => i | .reaction => 0 | .ordinary i => i
+
+/-- Likewise for outgoing logs: `0` for the write. -/
+def outEvNum : OutEv → Nat
+  | .earlyOut i => i | .written => 0 | .ordOut i => i
+
+/-- The configuration the live probe builds: the given `(id, types, early, outgoing)` registrations
+in order, the callback of listener `ign` raising `IgnorePacket`. -/
+def probeCfg (regs : List (Nat × List Nat × Bool × Bool)) (ign : Nat) : Cfg :=
+  registerAll {} (regs.map fun x => ⟨⟨x.1, x.2.1, x.1 == ign⟩, x.2.2.1, x.2.2.2⟩)
+
+/-! ## Models of CHANGED code (used only to show that the theorems notice the change) -/
+
+/-- CHANGED `_react` (l.577): iterates `early_outgoing_packet_listeners` instead of
+`early_packet_listeners`. -/
+def reactWrongList (hier : Hier) (cfg : Cfg) (rIgn : Bool) (c : Nat) : List Ev × Bool :=
+  reactIncoming hier cfg.earlyOutgoingPacketListeners cfg.packetListeners rIgn c
+
+/-- CHANGED `_write_packet` (l.337/l.345): the two lists swapped. -/
+def writeSwapped (hier : Hier) (cfg : Cfg) (c : Nat) : List OutEv :=
+  writeOutgoing hier cfg.outgoingPacketListeners cfg.earlyOutgoingPacketListeners c
+
+/-- CHANGED `_pop_packet` (l.330): `self._write_packet(self._outgoing_packet_queue[0])` — the
+packet is not removed from the queue. -/
+def popPacketPeek (hier : Hier) (s : Conn) : Conn × Bool :=
+  match s.queue with
+  | [] => (s, false)
+  | p :: _ => (s.writeRaw hier .popped p, true)
+
+/-- CHANGED `write_packet` (l.218-222): the `else:` is lost, a forced packet is also queued. -/
+def writePacketNoElse (hier : Hier) (s : Conn) (p : Pkt) (force : Bool) : Conn :=
+  let s : Conn := { s with trace := s.trace ++ [Tr.issued p force] }
+  let s := if force then s.writeRaw hier .forced p else s
+  { s with queue := s.queue ++ [p] }
+
+/-- CHANGED `_run` / `_react`: the `except IgnorePacket` sits around the read loop instead of inside
+`_react`, so an ignored packet ends the read phase of the iteration. -/
+def readLoopIgnoreEnds (hier : Hier) (R : Reactor) (capR : Nat) : List Pkt → Conn → Nat → Conn
+  | [], s, _ => s
+  | p :: ps, s, n =>
+    if n < capR then
+      let s' := ({ s with inbox := ps }).react hier R p
+      if (s.cfg.react hier (R.ignores p) p.cls).2 then s'
+      else readLoopIgnoreEnds hier R capR ps s' (n + 1)
+    else s
+
 end PyCraft.Roles
